@@ -104,7 +104,7 @@ def ord2(ctx, flavours):
                 if len(ords) != 1:
                     why.append('kernel call not under exactly one Ordering arm: %s' % labs)
                 pushes = [(sbi, st) for sbi, st in calls_in(b, lambda x: callee_name(x).endswith('Vec::push')) if strip_payload(pv.of_operand(st['args'][0])) == ret and cfg.dominates(bi, sbi)]
-                apps = [(sbi, st) for sbi, st in calls_in(b, lambda x: callee_name(x).endswith('Vec::append') or callee_name(x).endswith('Vec::extend')) if strip_payload(pv.of_operand(st['args'][0])) == ret and cfg.dominates(bi, sbi)]
+                apps = [(sbi, st) for sbi, st in calls_in(b, lambda x: callee_name(x).endswith('Vec::append') or callee_name(x).split('::')[-1].rstrip('>') == 'extend') if strip_payload(pv.of_operand(st['args'][0])) == ret and cfg.dominates(bi, sbi)]
                 if len(pushes) != 1 or strip_payload(pv.of_operand(pushes[0][1]['args'][1])) != ROOT:
                     why.append('root is not pushed exactly once on this arm')
                 if len(apps) != 1:
@@ -115,7 +115,8 @@ def ord2(ctx, flavours):
                     names = [c[1].split('::')[-1] for c in cs]
                     over_edges = term_mentions(src, lambda z: z == edges)
                     clos = [z for c in cs for z in c[2] if isinstance(z, tuple) and z and z[0] == 'aggr' and z[1].startswith('closure:')]
-                    if not over_edges or 'map' not in names or 'collect' not in names or any(n in names for n in ('rev', 'skip', 'filter', 'take', 'step_by')):
+                    is_extend = callee_name(apps[0][1]).split('::')[-1].rstrip('>') == 'extend'
+                    if not over_edges or 'map' not in names or ('collect' not in names and not is_extend) or any(n in names for n in ('rev', 'skip', 'filter', 'take', 'step_by')):
                         why.append('appended list is %s, expected the targets of the kernel\'s edges in order' % pretty(src))
                     elif len(clos) != 1:
                         why.append('cannot find the projection closure')
@@ -135,6 +136,65 @@ def ord2(ctx, flavours):
                 if ret != edges:
                     why.append('returned list is not the one the kernel filled')
             out.append(Obl('ORD2', b['q'], F.where(b, bi), 'assembly after %s under %s' % (K.name, '+'.join(labs)), not why, '; '.join(why) if why else 'ok'))
+    return out
+
+
+def ord2_derived(ctx, flavours):
+    """search_nodes implemented on top of search_edges: per Ordering arm, root first (Pre) / last (Post) around the targets of the edges"""
+    F = ctx.F
+    out = []
+    direct = {b['q'] for b, sites in dispatch.entries(ctx, flavours, ('Order',))}
+    for q, b in sorted(F.bodies.items()):
+        if F.flavour(b) not in flavours or b['kind'] == 'Closure' or b['impl_trait'] or q in direct:
+            continue
+        if b['impl_self_q'].split('::')[-1] != 'Order' or '::node::algo::' not in b['impl_self_q']:
+            continue
+        if not (F.ty_has_adt(b['locals'][0], r'::node::Node$') and not F.ty_has_adt(b['locals'][0], r'::node::Edge$') and F.types[b['locals'][0]].get('p') == 'std::vec::Vec'):
+            continue
+        pv, cfg = F.prov(b), F.cfg(b)
+        src_calls = [(bi, t) for bi, t in calls_in(b, lambda t: t.get('local') and t.get('res') in direct and F.ty_has_adt(F.bodies[t['res']]['locals'][0], r'::node::Edge$'))]
+        why = []
+        if len(src_calls) != 1 or strip_payload(pv.of_operand(src_calls[0][1]['args'][0])) != P1_:
+            out.append(Obl('ORD2', q, b['span'], 'node list derived from the edge list of the same search', False, 'does not call the edge-returning search of the same builder exactly once on self'))
+            continue
+        sbi, st = src_calls[0]
+        EDGES = deep_unwrap(('call', st['res'], tuple(pv.of_operand(a) for a in st['args']), sbi))
+        ret = strip_payload(pv.of_local(0))
+        rootf = dispatch._root_field(F, b)
+        ROOT = ('f', P1_, rootf)
+        pushes = [(bi, t) for bi, t in calls_in(b, lambda x: callee_name(x).endswith('Vec::push')) if strip_payload(pv.of_operand(t['args'][0])) == ret]
+        apps = [(bi, t) for bi, t in calls_in(b, lambda x: callee_name(x).endswith('Vec::append') or callee_name(x).split('::')[-1].rstrip('>') == 'extend') if strip_payload(pv.of_operand(t['args'][0])) == ret]
+        arms = {}
+        for kind, sites in (('push', pushes), ('app', apps)):
+            for bi, t in sites:
+                labs = [l.split('::')[-1] for l in dispatch.arm_context(F, b, bi) if l.startswith('Ordering::')]
+                if len(labs) != 1:
+                    why.append('%s at %s is not under exactly one Ordering arm' % (kind, t['sp']))
+                    continue
+                arms.setdefault(labs[0], {}).setdefault(kind, []).append((bi, t))
+        for lab in ('Pre', 'Post'):
+            a = arms.get(lab, {})
+            if len(a.get('push', [])) != 1 or len(a.get('app', [])) != 1:
+                why.append('%s arm: %d root pushes, %d appends' % (lab, len(a.get('push', [])), len(a.get('app', []))))
+                continue
+            (pb, pt), (ab, at) = a['push'][0], a['app'][0]
+            if strip_payload(pv.of_operand(pt['args'][1])) != ROOT:
+                why.append('%s arm pushes %s, not the root' % (lab, pretty(pv.of_operand(pt['args'][1]))))
+            src = pv.of_operand(at['args'][1])
+            cs = term_calls(src)
+            names = [c[1].split('::')[-1] for c in cs]
+            clos = [z for c in cs for z in c[2] if isinstance(z, tuple) and z and z[0] == 'aggr' and z[1].startswith('closure:')]
+            if not term_mentions(deep_unwrap(src), lambda z: z == EDGES) or 'map' not in names or any(n in names for n in ('rev', 'skip', 'filter', 'take', 'step_by')) or len(clos) != 1:
+                why.append('%s arm appends %s, expected the targets of the edges in order' % (lab, pretty(src)))
+            else:
+                cb = F.bodies.get(clos[0][1][len('closure:'):])
+                if cb is None or deep_unwrap(F.prov(cb).of_local(0)) != ('f', P2_, '1'):
+                    why.append('%s arm projects something else than the edge target' % lab)
+            if lab == 'Pre' and not cfg.dominates(pb, ab):
+                why.append('Pre arm appends the discovered nodes before the root')
+            if lab == 'Post' and not cfg.dominates(ab, pb):
+                why.append('Post arm pushes the root before the finished nodes')
+        out.append(Obl('ORD2', q, b['span'], 'node list = root + targets of the edge-list search, root first (Pre) / last (Post)', not why, '; '.join(why) if why else 'derived from %s' % st['res'].split('::')[-1]))
     return out
 
 
